@@ -36,28 +36,7 @@ POOLS = [
 TS_POOL = 2          # names computed from the DAG so that every edge respects time; built as a TimeSeriesCausalGraph
 
 
-def ts_names(n, edges):
-    """`tsv<i>` at a lag that grows with the depth of node i (longest path from a source): every edge goes forward in
-    time, nodes of one depth (or of two adjacent depths) are contemporaneous.  A cyclic edge list gets lag 0 throughout."""
-    level = [0] * n
-    for _ in range(n):
-        changed = False
-        for a, b in edges:
-            if level[b] < level[a] + 1:
-                level[b] = level[a] + 1
-                changed = True
-        if not changed:
-            break
-    else:
-        if n:
-            level = [0] * n                       # a directed cycle: everything contemporaneous
-    top = max(level) if n else 0
-    halve = (n + len(list(edges))) % 2 == 1
-    out = []
-    for i in range(n):
-        back = (top - level[i]) // 2 if halve else top - level[i]
-        out.append(f'tsv{i}' if back == 0 else f'tsv{i} lag(n={back})')
-    return out
+ts_names = gen.ts_names
 
 
 def pool_names(pool, n, edges):
@@ -184,13 +163,20 @@ def build(n, edges, names, validate=True):
     for i in range(n):
         if i not in late:
             g.add_node(names[i])
+    retype = []
     for k, (a, b) in enumerate(edges):
         if validate and k == len(edges) - 1 and len(edges) >= 2:
             gen.stress(g, ('c18-pre', n, tuple(edges), tuple(names[:n])))
         if (n + k) % 3 == 0:
             g.add_edge(names[a], names[b], edge_type='->', validate=validate)      # the type spelled as a plain string
+        elif validate and (n + 3 * k + len(edges)) % 7 == 0:
+            # the edge arrives with another type and is directed afterwards
+            g.add_edge(names[a], names[b], edge_type=['o>', '--', '<>', 'oo', 'o-'][(n + k) % 5])
+            retype.append((names[a], names[b]))
         else:
             g.add_edge(names[a], names[b], validate=validate)
+    for a, b in retype:
+        g.change_edge_type(a, b, '->' if len(retype) % 2 else gen._directed())
     if validate:
         gen.stress(g, ('c18', n, tuple(edges), tuple(names[:n])))
         g = gen.reroute(g, ('c18', n, tuple(edges), tuple(names[:n])))[0]
